@@ -18,7 +18,8 @@ import os
 
 ID = "C46"
 PROP_FILE = "Props/C46.v"
-THEOREMS = ["C46_tmp"]
+THEOREMS = ["C46_internal_tables", "C46_external_arrays", "C46_external_seq_nums", "C46_metadata",
+            "C46_arrays_distinct_partial", "C46_a_refuted"]
 _IMPORTS = ("From Coq Require Import String.\nFrom BV Require Import Pure.TiledBatch.\nImport List ListNotations.\n"
             "Local Open Scope string_scope.\nLocal Open Scope list_scope.")
 # String literals are slow to elaborate in Coq (~0.7 ms each): every distinct string of the generated
@@ -451,8 +452,11 @@ def coq_term(case, obs):
     err = "None" if obs["err"] is None else "(Some %s)" % ERRS[obs["err"]]
     verdict = "true" if py_holds(case, obs) else "false"
     fnd = "true" if finding(case, obs) == "a" else "false"
+    pairs = "true" if (wf_ext(case) and arrays_by_pair(case, obs)) else "false"
     return ("(let bs := %s in let docs : list doc := %s in agrees bs docs %s %s %s && Bool.eqb (c46_holds_b bs docs) %s "
-            "&& Bool.eqb (finding_C46_a_b bs docs) %s)" % (qz(case["bs"]), docs, log, err, qfinal(obs["final"]), verdict, fnd))
+            "&& Bool.eqb (finding_C46_a_b bs docs) %s "
+            "&& Bool.eqb (wf_ext_b docs && arrays_by_pair_b docs (fst (run bs docs))) %s)"
+            % (qz(case["bs"]), docs, log, err, qfinal(obs["final"]), verdict, fnd, pairs))
 
 
 # ----------------------------------------------------------------------------- oracle (property, not model)
@@ -682,7 +686,10 @@ def py_holds(case, obs):
             shapes = [e[4] for e in putl if cid_of(e) == cid]
             ok = ok and (not shapes or shapes[-1] == v[0] * mult.get(cid, 0))
         ok = ok and all(cid_of(e) in cons for e in putl)
-        ok = ok and all(mapped.get(s[2]) in cons for s in sds)
+        ok = ok and all(mapped.get(s[2]) in cons for s in sds if s[4] < s[5])
+        for u in [s[2] for s in sds] + [e[3][1] for e in putl]:
+            ok = ok and _perm([i for e in putl if e[3][1] == u for i in _expand(e[3][3], e[3][4])],
+                              [i for s in sds if s[2] == u for i in _expand(s[4], s[5])])
         ok = ok and all(any(d == e[3] for e in putl) for _, d in fin["ecache"])
         news = ["%s_%s" % (e[1], e[2]) for e in log if e[0] == "NewArray"]
         ok = ok and len(set(news)) == len(news) and all(c in news for c in cons)
@@ -690,6 +697,44 @@ def py_holds(case, obs):
             ok = ok and all(_perm([i for e in putl if cid_of(e) == cid for i in _expand(e[3][5], e[3][6])],
                                   [i for s in recv(cid) for i in _expand(s[6], s[7])]) for cid in cids)
     return bool(ok)
+
+
+def _pair_maps(case):
+    dm, sr = {}, {}
+    for s in case["docs"]:
+        if s[0] == "desc":
+            dm[s[1]] = s[2]
+        elif s[0] == "sres":
+            sr[s[1]] = s[2]
+    return dm, sr
+
+
+def wf_ext(case):
+    """mirror of wf_ext_b"""
+    docs = case["docs"]
+    du = [s[1] for s in docs if s[0] == "desc"]
+    su = [s[1] for s in docs if s[0] == "sres"]
+    dm, sr = _pair_maps(case)
+    sds = [s for s in docs if s[0] == "sd"]
+    pair = lambda s: (dm[s[3]], sr[s[2]]) if s[3] in dm and s[2] in sr else None
+    return (len(set(du)) == len(du) and len(set(su)) == len(su) and all(pair(s) is not None for s in sds)
+            and all(a[2] != b[2] or pair(a) == pair(b) for a in sds for b in sds))
+
+
+def arrays_by_pair(case, obs):
+    """mirror of arrays_by_pair_b on the observed log / final consolidators"""
+    dm, sr = _pair_maps(case)
+    sds = [s for s in case["docs"] if s[0] == "sd"]
+    pair = lambda s: (dm[s[3]], sr[s[2]]) if s[3] in dm and s[2] in sr else None
+    node_of = {"%s_%s" % (e[1], e[2]): (e[1], e[2]) for e in obs["log"] if e[0] == "NewArray"}
+    cons = dict((c, v) for c, v in obs["final"]["cons"])
+    for p in [pair(s) for s in sds if pair(s) is not None]:
+        cid = "%s_%s" % p
+        if cid not in cons or node_of.get(cid) != p:
+            return False
+        if cons[cid][0] != sum(s[5] - s[4] for s in sds if pair(s) == p):
+            return False
+    return True
 
 
 def _trunc(v):
@@ -913,7 +958,8 @@ def gen_malformed():
         add("bad-event-before-descriptor", [_start(), ev(1), P, _stop()], "KeyError")
         add("bad-sd-unknown-resource", [_start(), P, sd(1, 0, 1), _stop()], "RuntimeError")
         add("bad-sd-unknown-resource-2", [_start(), P, sd(1, 0, 1), sd(2, 1, 2), sd(3, 4, 5), _stop()], "RuntimeError")
-        add("bad-sd-resource-after", [_start(), P, sd(1, 0, 1), sd(2, 1, 5), sr, _stop()], "RuntimeError" if bs <= 4 else None)
+        add("bad-sd-resource-after" if bs <= 3 else "x-sd-resource-late", [_start(), P, sd(1, 0, 1), sd(2, 1, 3), sr, _stop()],
+            "RuntimeError" if bs <= 3 else None)
         add("bad-stop-without-start", [_stop()], "RuntimeError")
         add("bad-descriptor-before-start", [P, _start(), _stop()], "RuntimeError")
         add("bad-second-dataset", [_start(), P, sr, ["sres", "sr2", "img", "/other"], sd(1, 0, 1), sd(2, 1, 2, "sr2"),
